@@ -1,0 +1,146 @@
+// SPDX-FileCopyrightText: 2026 The Pion community <https://pion.ly>
+// SPDX-License-Identifier: MIT
+
+//go:build verif && !js
+
+package webrtc
+
+import (
+	"errors"
+	"io"
+	"net"
+
+	"github.com/pion/logging"
+	"github.com/pion/webrtc/v4/internal/mux"
+)
+
+// Re-exports of internal/mux for the verification harness (property C27); a foreign module cannot
+// import an internal package.
+
+// VerifMuxSetYield installs the yield callback of package internal/mux.
+func VerifMuxSetYield(fn func(label string)) { mux.VerifSetYield(fn) }
+
+// VerifMuxMatchDTLS forwards to mux.MatchDTLS.
+func VerifMuxMatchDTLS(b []byte) bool { return mux.MatchDTLS(b) }
+
+// VerifMuxMatchSRTP forwards to mux.MatchSRTP.
+func VerifMuxMatchSRTP(b []byte) bool { return mux.MatchSRTP(b) }
+
+// VerifMuxMatchSRTCP forwards to mux.MatchSRTCP.
+func VerifMuxMatchSRTCP(b []byte) bool { return mux.MatchSRTCP(b) }
+
+// VerifMuxMatchSRTPOrSRTCP forwards to mux.MatchSRTPOrSRTCP.
+func VerifMuxMatchSRTPOrSRTCP(b []byte) bool { return mux.MatchSRTPOrSRTCP(b) }
+
+// VerifMuxMatchRange forwards to mux.MatchRange.
+func VerifMuxMatchRange(lower, upper byte, b []byte) bool { return mux.MatchRange(lower, upper, b) }
+
+// VerifMuxMatcher returns the MatchFunc named by kind: "dtls", "srtp", "srtcp", "rtp" (SRTP or
+// SRTCP), "all" or "range" (with the bounds lower, upper).
+func VerifMuxMatcher(kind string, lower, upper byte) func([]byte) bool {
+	switch kind {
+	case "dtls":
+		return mux.MatchDTLS
+	case "srtp":
+		return mux.MatchSRTP
+	case "srtcp":
+		return mux.MatchSRTCP
+	case "rtp":
+		return mux.MatchSRTPOrSRTCP
+	case "all":
+		return mux.MatchAll
+	default:
+		return func(b []byte) bool { return mux.MatchRange(lower, upper, b) }
+	}
+}
+
+// VerifMux wraps a mux.Mux: either a real one reading from a net.Pipe (loop) or one without a
+// readLoop whose dispatch the harness calls directly.
+type VerifMux struct {
+	m    *mux.Mux
+	in   net.Conn
+	out  net.Conn
+	loop bool
+}
+
+// VerifMuxEndpoint wraps a mux.Endpoint.
+type VerifMuxEndpoint struct {
+	e *mux.Endpoint
+}
+
+// NewVerifMux creates the Mux. With loop, datagrams are fed through a net.Pipe and the Mux's own
+// readLoop; otherwise Feed calls dispatch in the caller's goroutine.
+func NewVerifMux(loop bool, bufferSize int) *VerifMux {
+	in, out := net.Pipe()
+	v := &VerifMux{in: in, out: out, loop: loop}
+	lf := logging.NewDefaultLoggerFactory()
+	lf.DefaultLogLevel = logging.LogLevelDisabled
+	if loop {
+		v.m = mux.NewMux(mux.Config{Conn: out, BufferSize: bufferSize, LoggerFactory: lf})
+	} else {
+		v.m = mux.VerifNewMux(out, bufferSize, lf)
+	}
+
+	return v
+}
+
+// Feed delivers one datagram: written to the pipe (loop) or dispatched directly.
+func (v *VerifMux) Feed(b []byte) error {
+	if v.loop {
+		_, err := v.in.Write(b)
+
+		return err
+	}
+
+	return v.m.VerifDispatch(b)
+}
+
+// NewEndpoint forwards to Mux.NewEndpoint.
+func (v *VerifMux) NewEndpoint(match func([]byte) bool) *VerifMuxEndpoint {
+	return &VerifMuxEndpoint{e: v.m.NewEndpoint(match)}
+}
+
+// Pending returns a copy of the pending-packet queue.
+func (v *VerifMux) Pending() [][]byte { return v.m.VerifPending() }
+
+// Close forwards to Mux.Close and closes the feeding side of the pipe.
+func (v *VerifMux) Close() error {
+	err := v.m.Close()
+	_ = v.in.Close()
+
+	return err
+}
+
+// Close forwards to Endpoint.Close (close the buffer, then RemoveEndpoint).
+func (e *VerifMuxEndpoint) Close() error { return e.e.Close() }
+
+// SetLimitSize changes the byte limit of the endpoint's buffer.
+func (e *VerifMuxEndpoint) SetLimitSize(limit int) { e.e.VerifSetLimitSize(limit) }
+
+// TryRead reads one packet if one is waiting.
+func (e *VerifMuxEndpoint) TryRead() ([]byte, bool) {
+	if e.e.VerifCount() == 0 {
+		return nil, false
+	}
+	buf := make([]byte, 1<<17)
+	n, err := e.e.Read(buf)
+	if err != nil {
+		return nil, false
+	}
+
+	return buf[:n], true
+}
+
+// Drain closes the endpoint's buffer (if it is still open) and reads what is left in it.
+func (e *VerifMuxEndpoint) Drain() [][]byte {
+	_ = e.e.Close()
+	out := [][]byte{}
+	buf := make([]byte, 1<<17)
+	for {
+		n, err := e.e.Read(buf)
+		if errors.Is(err, io.EOF) || err != nil {
+			return out
+		}
+		out = append(out, append([]byte{}, buf[:n]...))
+	}
+}
